@@ -234,10 +234,17 @@ Section Create.
               | Some bi =>
                   do b <- idx bs bi;                         (* builders[builder_index] *)
                   if negb (kind_eqb b KComm) then Err
-                  else match nth_error l (c_claim s) with
-                       | None => Err
-                       | Some isnum => if isnum && oc_pred Orc (c_key s) then range_builders t bs ix else Err
-                       end
+                  else
+                    (* RangeBuilder::commit: the range statement names the commitment statement's claim and signature statement *)
+                    match find (fun p => Nat.eqb (c_key p) (c_ref s)) (cpreds S0) with
+                    | None => Err
+                    | Some cs =>
+                        if negb (Nat.eqb (c_claim s) (c_claim cs)) || negb (Nat.eqb (c_sig s) (c_ref cs)) then Err
+                        else match nth_error l (c_claim s) with
+                             | None => Err
+                             | Some isnum => if isnum && oc_pred Orc (c_key s) then range_builders t bs ix else Err
+                             end
+                    end
               end
           end
     end.
